@@ -9,6 +9,7 @@ import (
 	"os"
 	"path/filepath"
 	"strings"
+	"time"
 
 	"github.com/CloudyKit/jet/v6"
 	"github.com/CloudyKit/jet/v6/loaders/embedfs"
@@ -151,10 +152,51 @@ func (l c19Prefixed) Open(name string) (io.ReadCloser, error) {
 
 var c19EmbedTree = c19Tree{A: "dir", B: "file", AA: "file", AB: "dir"}
 
+// c19MemReader: what a reader obtained from Open yields is content that was stored under that path - the content at the
+// time of Open or a later one, never a mixture - whatever is Set afterwards (under any spelling); and a failed Open
+// leaves the loader usable
+func c19MemReader() *Result {
+	l := jet.NewInMemLoader()
+	old := strings.Repeat("A", 40)
+	l.Set("/p", old)
+	r, err := l.Open("/p")
+	if err != nil {
+		return nil
+	}
+	l.Set("/p", "bbbbbbbb")
+	l.Set("x/../p", "cc")
+	b, _ := io.ReadAll(r)
+	if got := string(b); got != old && got != "bbbbbbbb" && got != "cc" {
+		return &Result{Sig: map[string]interface{}{"loader": "mem", "shape": "reader-after-set", "query_is_dir_somewhere": false}, Key: "history",
+			Observed: got, Expected: old,
+			Detail: fmt.Sprintf("a reader opened on /p (content %q), read after /p was Set twice, yielded %q: bytes that were never stored under /p", old, got)}
+	}
+	done := make(chan struct{})
+	go func() {
+		defer close(done)
+		l.Open("/nosuch")
+		l.Set("/q", "q")
+		l.Delete("/q")
+	}()
+	select {
+	case <-done:
+	case <-time.After(5 * time.Second):
+		return &Result{Sig: map[string]interface{}{"loader": "mem", "shape": "usable-after-failed-open", "query_is_dir_somewhere": false}, Key: "history",
+			Observed: "blocked", Expected: "returns",
+			Detail: "after Open of a path that is not stored, Set/Delete on the same InMemLoader did not return within 5 s"}
+	}
+	return nil
+}
+
 func c19FSReplay(i int, raw json.RawMessage) Result {
 	var v c19FSVec
 	if err := json.Unmarshal(raw, &v); err != nil {
 		return Result{Detail: "bad vector: " + err.Error()}
+	}
+	if i == 0 {
+		if r := c19MemReader(); r != nil {
+			return *r
+		}
 	}
 	key := string(raw)
 	assignments := []string{"os", "os-slash", "http", "mixed", "mem", "memfirst"}
